@@ -102,7 +102,7 @@ def check(ctx):
             guards |= {"v:" + g for g, fn in OC.GUARDS.items() if va.startswith("(Program") and fn(text, va)}
             failures.append({"case": G.enc(base[i]), "check": mode,
                              "detail": {"base": base[i], "variant": text, "mapping": mp, "differences": [list(map(str, d))[:3] for d in diffs[:3]]},
-                             "guards": guards, "model_agrees": recs[i]["agree"] is not False,
+                             "guards": guards, "model_agrees": recs[i]["agree"] is True,
                              "replay_how": "oq3-run sema on base and variant; compare with vf/oracle_sema_c.py compare_modulo(mode)"})
         elif o.startswith("asg="):
             nontriv += 1
